@@ -23,7 +23,8 @@ CONSTANTS
   BugZeroCostHeld = FALSE
   SplitOnlyAtEnqueue = FALSE
   DropOnClose = FALSE
+  WriteErrorEndsReader = FALSE
   ForwardInitWin = FALSE
   WithSettings = TRUE
-INVARIANTS NotStarved WithinGrant WithinMaxFrame CreditReturned NoEligibleQueued LedgerAgrees PrefixFidelity Conserved HpackInOrder
+INVARIANTS ReaderAlive NotStarved WithinGrant WithinMaxFrame CreditReturned NoEligibleQueued LedgerAgrees PrefixFidelity Conserved HpackInOrder
 CHECK_DEADLOCK FALSE
